@@ -89,6 +89,8 @@ const LIPARSER: &str = "unic-langid-impl/src/parser/mod.rs";
 const LOCPARSER: &str = "unic-locale-impl/src/parser/mod.rs";
 const LOCLIB: &str = "unic-locale-impl/src/lib.rs";
 const SERDE: &str = "unic-langid-impl/src/serde.rs";
+const LIFACADE: &str = "unic-langid/src/lib.rs";
+const LOCFACADE: &str = "unic-locale/src/lib.rs";
 const LIMACROS: &str = "unic-langid-macros-impl/src/lib.rs";
 const LOCMACROS: &str = "unic-locale-macros-impl/src/lib.rs";
 
@@ -249,6 +251,10 @@ pub const TARGETS: &[Target] = &[
     t!("Macros.variant", "SrcMacros", LIMACROS, None, "variant_fn", "Bytes → MacroOut Bytes", "UL.Macros.variant", &[], "Macros"),
     t!("Macros.langid", "SrcMacros", LIMACROS, None, "langid", "Bytes → MacroOut LangId", "UL.Macros.langid", &[], "Macros"),
     t!("Macros.locale", "SrcMacros", LOCMACROS, None, "locale", "Bytes → MacroOut Locale", "UL.Macros.locale", &[], "Macros"),
+    // ---- the declarative list macros of the façade crates (`tr_macro.rs`, `translate_list_macro`)
+    t!("Macros.langids", "SrcMacros", LIFACADE, None, "langids", "List Bytes → MacroOut (List LangId)", "(UL.Macros.list UL.Macros.langid)", &[], "ListMacros"),
+    t!("Macros.langidSlice", "SrcMacros", LIFACADE, None, "langid_slice", "List Bytes → MacroOut (List LangId)", "(UL.Macros.list UL.Macros.langid)", &[], "ListMacros"),
+    t!("Macros.locales", "SrcMacros", LOCFACADE, None, "locales", "List Bytes → MacroOut (List Locale)", "(UL.Macros.list UL.Macros.locale)", &[], "ListMacros"),
 ];
 
 /// Cargo features that are on when a target is translated (default: `likelysubtags` on, as in the harness build).
@@ -277,6 +283,8 @@ pub const FILES: &[&str] = &[
     LIMACROS,
     LOCMACROS,
     SERDE,
+    LIFACADE,
+    LOCFACADE,
     "unic-langid-impl/src/errors.rs",
     "unic-locale-impl/src/errors.rs",
     "unic-langid-impl/src/parser/errors.rs",
